@@ -8,6 +8,8 @@ def run(ctx: Ctx) -> None:
     e4(ctx, ["deepali.core.kernels", "deepali.core.bspline"])
     t3_bspline.run_tables(ctx)
     t3_bspline.run_evaluate(ctx)
+    t3_bspline.run_kernels_nd(ctx)
+    ctx.floor("T3.kernels", 19)
     ctx.floor("T3.weights", 25)
     ctx.floor("T3.value", 12)
     ctx.floor("T3.evaluate", 10)
@@ -50,6 +52,9 @@ def mutants(prog):
         ("ffd update: spline evaluated before the parameters are refreshed", S, "FreeFormDeformation.update", "super().update()\n    u = self.evaluate_spline()\n    self.register_buffer('u', u, persistent=False)\n    return self", "u = self.evaluate_spline()\n    self.register_buffer('u', u, persistent=False)\n    return super().update()", "T6x."),
         ("conv1d: transposed convolution with mirrored weights", "deepali.core.image", "conv1d", "weight = kernel.expand(groups, 1, kernel.shape[-1])", "weight = (kernel.flip(-1) if transpose else kernel).expand(groups, 1, kernel.shape[-1])", "T3.evaluate"),
         ("evaluate: transposed path refuses derivatives only when given as an int", B, "evaluate_cubic_bspline", "isinstance(derivative, int) and derivative != 0 or (isinstance(derivative, Sequence) and any((order != 0 for order in derivative)))", "isinstance(derivative, int) and derivative != 0", "T3.evaluate"),
+        ("2-D kernel allocated in stride order", "deepali.core.kernels", "cubic_bspline2d", "(4 * stride_ - 1).flip(0).tolist()", "(4 * stride_ - 1).tolist()", "T3.kernels"),
+        ("3-D kernel: x and z strides swapped", "deepali.core.kernels", "cubic_bspline3d", "w_k = cubic_bspline_value((k - radius[2]) / stride[2], derivative=derivative)", "w_k = cubic_bspline_value((k - radius[2]) / stride[0], derivative=derivative)", "T3.kernels"),
+        ("generic kernel front end drops the derivative (2-D)", "deepali.core.kernels", "cubic_bspline", "return cubic_bspline2d(stride_, derivative=derivative, dtype=dtype, device=device)", "return cubic_bspline2d(stride_, dtype=dtype, device=device)", "T3.kernels"),
     ]
     for name, mod, fn, old, new, expect in specs:
         ov = source_sub(prog, mod, fn, old, new)
